@@ -98,6 +98,17 @@ Definition beforeb (a b : nat) (x y : occ) : bool :=
 
 Definition headwayb (h : F) (x y : occ) : bool :=
   match o_ce x with Some c => nleb (nadd c h) (o_in y) | None => false end.
+(* exit end: once the follower's front has really left the link (strictly before its own release --
+   a holding closed because the train left the model has ax = out), the leader's tail had left it at
+   least the headway earlier *)
+Definition exit_headwayb (h : F) (x y : occ) : bool :=
+  match o_ax y with
+  | None => true
+  | Some ya =>
+      if (match o_out y with Some yo => nltb ya yo | None => true end)
+      then (match o_out x with Some u => nleb (nadd u h) ya | None => false end)
+      else true
+  end.
 Definition orderb (x y : occ) : bool :=
   leoo (o_ax x) (o_ax y) && leoo (o_ce x) (o_ce y) && leoo (o_out x) (o_out y).
 
@@ -109,7 +120,7 @@ Definition opposing_betweenb (net : list link) (occs : list (list occ)) (a b : n
 Definition pair_okb (net : list link) (h : F) (occs : list (list occ)) (a b : nat) (x y : occ) : bool :=
   (negb (exclb net (o_link x) (o_link y)) || disjointb x y)
   && (negb ((o_link x =? o_link y) && beforeb a b x y)
-      || ((opposing_betweenb net occs a b x y || headwayb h x y) && orderb x y)).
+      || ((opposing_betweenb net occs a b x y || (headwayb h x y && exit_headwayb h x y)) && orderb x y)).
 
 (* quadratic, sort-free *)
 Definition plan_ok (net : list link) (h : F) (occs : list (list occ)) : bool :=
